@@ -94,6 +94,8 @@ def leaves(text):
     expression how often is the one thing a set of names cannot tell (`length(arg4)` vs `length(arg1)` in a long formula)."""
     out = set()
     argc = {}
+    if text and ('bool::then' in text or 'Option::filter(' in text):
+        text = _strip_conditions(rebalance(text))
     for m in _MARK.finditer(text or ''):
         for t in ABBR.get(m.group(0)[2:], frozenset()):
             ma = re.fullmatch(r'(arg\d+)\*(\d+)', t)
@@ -509,7 +511,7 @@ def bypassed(reviewed_exits, actual_exits):
 _DURABLE = re.compile(r'^(?:in closure: )?call (Batch::(?:put|put_kv|delete)|<DB as (?:Put|Delete)>::(?:put|delete))\(')
 
 
-def narrowed(reviewed_exits, actual_exits):
+def narrowed(reviewed_exits, actual_exits, writes=False):
     """Durable writes (batch / DB put, delete) of a storage function that are now made only under a test the reviewed function
     never made anywhere: the write is skipped where it used to be performed.  (For a rejection an added test is harmless; for a
     write that the index or the recovery depends on it is not: seeded C03-6 skipped the transaction record of a re-indexed
@@ -518,14 +520,20 @@ def narrowed(reviewed_exits, actual_exits):
     for e in reviewed_exits:
         known |= path_decisions(e)
         known |= decisions(re.sub(r'^in closure: ', '', e.get('label', '')))
-    rev_eff = [_effect(e.get('label', '')) for e in reviewed_exits if _DURABLE.match(e.get('label', ''))]
+    _is = (lambda l: bool(_DURABLE.match(l))) if not writes else (lambda l: bool(_DURABLE.match(l) or re.match(r'^(?:in closure: )?write ', l)))
+    rev_eff = [_effect(e.get('label', '')) for e in reviewed_exits if _is(e.get('label', ''))]
     out = []
     for a in actual_exits:
         lab = a.get('label', '')
-        if not _DURABLE.match(lab):
+        if not _is(lab):
             continue
         ef = _effect(lab)
-        if not any(r and r[1] == ef[1] and (_subsim(r[2], ef[2]) or _subsim(ef[2], r[2])) for r in rev_eff):
+        if ef is None:
+            continue
+        if ef[0] == 'write':
+            if not any(r and r[0] == 'write' and (_subsim(r[1], ef[1]) or _subsim(ef[1], r[1])) for r in rev_eff):
+                continue
+        elif not any(r and r[0] == 'effect' and r[1] == ef[1] and (_subsim(r[2], ef[2]) or _subsim(ef[2], r[2])) for r in rev_eff):
             continue                       # a new / changed write: reported by lost() on the reviewed side
         for d in sorted(path_decisions(a), key=repr):
             if d[0] in ('cmp', 'is') and d[1] != 'flag' and not _covered(d, known) and not (d[0] == 'cmp' and not d[2] and not d[3]):
